@@ -532,7 +532,8 @@ def programs(draw, dynamic=None):
             "model": draw(st.integers(0, 3)) == 0, "ovr": {}, "stmts": stmts, "dyn": None}
     if draw(st.integers(0, 2)) == 0:
         # override a param from outside (becomes a compile option)
-        prog["ovr"] = {"q0": draw(st.sampled_from([1, 2.5, "s", True]))}
+        # (also "empty" values: an override is an override whatever its truth value)
+        prog["ovr"] = {"q0": draw(st.sampled_from([1, 2.5, "s", True, 0, 0.0, False, "", None]))}
 
     if not want_dyn:
         return prog
